@@ -41,7 +41,7 @@ def main():
             na.append({"property_id": i, "reason": PENDING_REASON})
     m = {
         "version": 1,
-        "setup_cmd": "cd /verif/lean && lake build JF jfdriver",
+        "setup_cmd": "cd /verif/lean && lake build",
         "hooks": {"guard": "JELLYFYSH_VERIF", "enable": "no source hooks: checks observe the real classes from the harness "
                   "(JELLYFYSH_VERIF=1 is exported by ./check but read by nothing in /repo)",
                   "baseline_off_cmd": "cd /repo && /venv/bin/python -m pytest -ra -q -p no:cacheprovider --timeout=900 --continue-on-collection-errors",
